@@ -449,3 +449,55 @@ impl crate::vm::VM {
         out
     }
 }
+
+// Raw dump of every VM field that can hold a heap reference (C03): the Coq model computes the root
+// list from this itself (register windows, frame functions and closures, both global views,
+// upvalue lists) and is compared with what `collect` kept.
+#[derive(Debug, Clone, Default)]
+pub struct AuditVmState {
+    /// registers[0 .. end of the highest frame window], Some(p) for pointer values
+    pub registers: Vec<Option<usize>>,
+    /// pointer-valued registers above every frame window (not roots: dead temporaries)
+    pub stale_register_ptrs: usize,
+    /// (base, num_registers, function, closure object owning upvalues_ptr)
+    pub frames: Vec<(usize, usize, usize, Option<usize>)>,
+    pub globals: Vec<usize>,
+    pub globals_by_index: Vec<Option<usize>>,
+    pub open_upvalues: Vec<usize>,
+    pub current_upvalues: Vec<usize>,
+    /// pointer values held by the layout snapshots in globals_by_index_cache
+    pub globals_cache: Vec<usize>,
+}
+
+impl crate::vm::VM {
+    pub fn verif_vm_state(&self) -> AuditVmState {
+        let fr = self.verif_frames();
+        let mut end = 0usize;
+        let mut frames = Vec::new();
+        for (f, a) in self.frames.iter().zip(fr.iter()) {
+            end = end.max(f.base + f.num_registers as usize);
+            frames.push((f.base, f.num_registers as usize, f.function().index(), a.closure));
+        }
+        let end = end.min(self.registers.len());
+        let registers = self.registers[..end].iter().map(|v| v.as_ptr()).collect();
+        let stale_register_ptrs = self.registers[end..].iter().filter(|v| v.as_ptr().is_some()).count();
+        let mut globals: Vec<usize> = self.globals.values().filter_map(|v| v.as_ptr()).collect();
+        globals.sort();
+        let mut globals_cache: Vec<usize> = self
+            .globals_by_index_cache
+            .values()
+            .flat_map(|snap| snap.iter().filter_map(|v| v.as_ptr()))
+            .collect();
+        globals_cache.sort();
+        AuditVmState {
+            registers,
+            stale_register_ptrs,
+            frames,
+            globals,
+            globals_by_index: self.globals_by_index.iter().map(|v| v.as_ptr()).collect(),
+            open_upvalues: self.open_upvalues.iter().map(|u| u.index()).collect(),
+            current_upvalues: self.current_upvalues.iter().map(|u| u.index()).collect(),
+            globals_cache,
+        }
+    }
+}
